@@ -932,7 +932,85 @@ fn disconnect_cases(rep: &mut Rep, idx: &mut u64) {
     }
 }
 
+/// Two operations of one kind outstanding whose packet identifiers agree in one of their bytes: each acknowledgement is a
+/// well-formed packet of its own, and the values decoded from it must be exposed to the request whose identifier it bears -
+/// not to the other one.
+fn neighbouring_identifiers(rep: &mut Rep, idx: &mut u64) {
+    let pairs: [(u16, u16); 8] = [(1, 257), (5, 0x0305), (0x00ff, 0xffff), (256, 512), (0x0100, 0x0101), (0x1234, 0x1334), (0x1234, 0x5634), (2, 65282)];
+    rep.note(&format!("neighbouring identifiers: two subscribes / unsubscribes / QoS 1 publishes / QoS 2 publishes (PUBREC, and PUBCOMP) outstanding under identifier pairs {:x?} (equal low byte, equal high byte), acknowledged in reverse order with distinct reason codes, reason strings and user properties: each request sees the content of the packet bearing its own identifier", pairs));
+    for kind in 0..5u8 {
+        for &(ia, ib) in &pairs {
+            let id = format!("neighbours:{kind}:{ia:#x}:{ib:#x}");
+            *idx += 1;
+            if !rep.take(*idx, &id) {
+                continue;
+            }
+            let mut r = running(rep.seed);
+            let spec = |tag: &str| -> OpSpec {
+                match kind {
+                    0 => OpSpec::Subscribe(SubSpec::simple(&format!("f/{tag}"))),
+                    1 => OpSpec::Unsubscribe(UnsubSpec::simple(&format!("f/{tag}"))),
+                    2 => OpSpec::Publish(PubSpec::simple(1, &format!("t/{tag}"), b"x")),
+                    _ => OpSpec::Publish(PubSpec::simple(2, &format!("t/{tag}"), b"y")),
+                }
+            };
+            r.sim.handles[0].as_ref().unwrap().verif_seed_ids(ia, 10);
+            let (oa, ga) = start(&mut r, spec("a"));
+            r.sim.handles[0].as_ref().unwrap().verif_seed_ids(ib, 20);
+            let (ob, gb) = start(&mut r, spec("b"));
+            if (ga, gb) != (ia, ib) {
+                // the hook positions the counter one before the wanted value; if the allocator works differently the pair is
+                // simply another one
+                rep.add("neighbour_pairs_with_other_identifiers", 1);
+            }
+            if kind == 4 {
+                // QoS 2 in its second phase: PUBREC for both first
+                for pid in [ga, gb] {
+                    r.sim.feed_packet(&SPacket::Ack { kind: AckKind::Pubrec, id: pid, reason: 0, props: vec![], form: AckForm::Short2 });
+                    r.sim.settle();
+                }
+            }
+            let mk = |pid: u16, tag: &str, reason_idx: usize| -> SPacket {
+                let props = vec![Prop::str(31, &format!("for-{tag}")), Prop::pair("who", tag)];
+                match kind {
+                    0 => SPacket::Suback { id: pid, props, reasons: vec![[0x00u8, 0x01, 0x02, 0x80][reason_idx]] },
+                    1 => SPacket::Unsuback { id: pid, props, reasons: vec![[0x00u8, 0x11, 0x80, 0x87][reason_idx]] },
+                    2 => SPacket::Ack { kind: AckKind::Puback, id: pid, reason: [0x80u8, 0x87, 0x90, 0x97][reason_idx], props, form: AckForm::Full },
+                    3 => SPacket::Ack { kind: AckKind::Pubrec, id: pid, reason: [0x80u8, 0x87, 0x90, 0x97][reason_idx], props, form: AckForm::Full },
+                    _ => SPacket::Ack { kind: AckKind::Pubcomp, id: pid, reason: 0x92, props, form: AckForm::Full },
+                }
+            };
+            // the later request is answered first
+            r.sim.feed_packet(&mk(gb, "b", 1));
+            r.sim.settle();
+            r.sim.feed_packet(&mk(ga, "a", 2));
+            r.sim.settle();
+            rep.add("evaluations", 1);
+            rep.add("neighbouring_identifier_cases", 1);
+            rep.distinct(&("neighbours", kind, ia, ib));
+            for p in r.sim.panics.clone() {
+                viol(rep, format!("C02/panic/{p}"), &id, format!("panic: {p}"), &r.sim);
+            }
+            for (op, tag, pid) in [(oa, "a", ga), (ob, "b", gb)] {
+                let want = Some(format!("for-{tag}"));
+                let got: Option<Option<String>> = match &r.sim.ops[op].out {
+                    Some(OpOut::Suback(Ok(s))) | Some(OpOut::Unsuback(Ok(s))) => Some(s.reason_string.clone()),
+                    Some(OpOut::Unit(Err(ErrSum::PubackError(e)))) | Some(OpOut::Unit(Err(ErrSum::PubrecError(e)))) | Some(OpOut::Unit(Err(ErrSum::PubcompError(e)))) => Some(e.reason_string.clone()),
+                    _ => None,
+                };
+                if got != Some(want.clone()) {
+                    viol(rep, format!("C02/value-mismatch/pkt={}/exposed-to-another-request", ["SUBACK", "UNSUBACK", "PUBACK", "PUBREC", "PUBCOMP"][kind as usize]), &id, format!("request {tag} (identifier {pid:#06x}): its acknowledgement carries reason string {:?}; the request sees {:?} (result {:?})", want, got, r.sim.ops[op].out.as_ref().map(|o| o.brief())), &r.sim);
+                } else {
+                    rep.add("values_compared", 1);
+                }
+            }
+        }
+    }
+}
+
 pub fn run(rep: &mut Rep) {
+    let mut idx = 70_000_000u64;
+    neighbouring_identifiers(rep, &mut idx);
     let mut idx = 0u64;
     connack_cases(rep, &mut idx);
     auth_cases(rep, &mut idx);
